@@ -17,6 +17,7 @@ import XsdataModel.Proofs.SeqNumRelabel
 import XsdataModel.Proofs.PackagesPerm
 import XsdataModel.Proofs.SccStruct
 import XsdataModel.Proofs.SccSpec
+import XsdataModel.Proofs.CliFlags
 
 namespace Props.C12
 open Py Xs.Codegen List
@@ -395,15 +396,39 @@ example : cliGenerate defaultOutput
                                 format := { defaultOutput.format with frozen := true } } := by
   decide
 
-/-- A *partial* set of flags on top of a project file equals the constructor run
-on the file's values overridden by the flags: `update` ends with the same two
-validations as `__post_init__`.  (`applyFlags` = plain assignment of the given flags.) -/
-theorem cli_partial_flags_eq_api (file : GenOutput) (kwargs : List (Dest × Option OptVal)) :
-    cliGenerate file kwargs =
-      ((kwargs.filterMap (fun kv => kv.2.map (fun v => (kv.1, v)))).foldlM
-        (fun o kv => setField o kv.1 kv.2) file).map construct := by
-  unfold cliGenerate update construct
-  rfl
+/-- **The order of the flags on the command line is irrelevant**: `update(**kwargs)`
+assigns the keyword arguments one after the other (`objects.update`), click delivers
+them in declaration order, a caller of the API in any order — for pairwise different
+options every order gives the same configuration (assignments to different fields
+commute, the validations run once at the end). -/
+theorem cli_flags_order_irrelevant (file : GenOutput) {kwargs kwargs' : List (Dest × Option OptVal)}
+    (hp : kwargs ~ kwargs') (hn : (kwargs.map (·.1)).Nodup) :
+    cliGenerate file kwargs = cliGenerate file kwargs' := by
+  unfold cliGenerate
+  rw [update_eq, update_eq]
+  have hp' := hp.filterMap (fun kv => kv.2.map (fun v => (kv.1, v)))
+  have hn' := hn.sublist (given_dests_sublist kwargs)
+  rw [applyParams_perm hp' hn']
+
+example : ([(Dest.fmtFrozen, some (OptVal.bool true)), (Dest.genericCollections, some (OptVal.bool true))] :
+    List (Dest × Option OptVal)) ~ [(Dest.genericCollections, some (OptVal.bool true)), (Dest.fmtFrozen, some (OptVal.bool true))]
+    ∧ ([(Dest.fmtFrozen, some (OptVal.bool true)), (Dest.genericCollections, some (OptVal.bool true))].map (·.1)).Nodup :=
+  ⟨List.Perm.swap _ _ _, by decide⟩
+
+/-- **Whatever the project file and the flags are, the configuration that reaches the
+generator satisfies both validations**: it is a fixed point of the constructors'
+`__post_init__` chain, i.e. a configuration the API could have produced. -/
+theorem cli_result_is_validated (file : GenOutput) (kwargs : List (Dest × Option OptVal))
+    (r : GenOutput) (h : cliGenerate file kwargs = some r) : construct r = r := by
+  unfold cliGenerate at h
+  rw [update_eq] at h
+  cases ha : applyParams file (kwargs.filterMap (fun kv => kv.2.map (fun v => (kv.1, v)))) with
+  | none => rw [ha] at h; cases h
+  | some o =>
+    rw [ha] at h
+    simp only [Option.map_some, Option.some.injEq] at h
+    rw [← h]
+    exact construct_idem o
 
 /-- Explicit flags override whatever the project file says: with every option
 given, the result does not depend on the file. -/
